@@ -2,6 +2,7 @@
 package main
 
 import (
+	"context"
 	"fmt"
 	"io"
 	"log"
@@ -20,6 +21,7 @@ import (
 
 	"verif.local/harness/ev"
 	"verif.local/harness/hw"
+	"verif.local/harness/inject"
 	"verif.local/harness/sto"
 )
 
@@ -65,6 +67,9 @@ type job struct {
 	lanes int
 	// twice: positions whose blob two concurrent deliverers hand in at the same time (lanes > 1).
 	twice map[int]bool
+	// jitter != 0 (lanes > 1): the blob source's Fetch perturbs the schedule (seeded), which widens
+	// the windows in which two deliverers are inside the indexer at once.
+	jitter int64
 	// search: ask the search-handler queries at the last prefix (corpus mode only).
 	search bool
 	// light: time-ordering probes at the prefixes that get no full probe
@@ -182,7 +187,11 @@ func runJob(r *ev.Run, j job, root string, sampleMu *sync.Mutex, sampled *int) {
 	if j.prefill {
 		sto.StoreAll(ms, j.w.Blobs)
 	}
-	live, err := hw.NewIdx(h.kv, ms, j.corpus)
+	var src hw.SrcStore = ms
+	if j.jitter != 0 {
+		src = &jitterSrc{Storage: ms, yield: inject.Jitter(j.jitter)}
+	}
+	live, err := hw.NewIdx(h.kv, src, j.corpus)
 	if err != nil {
 		r.Inconclusive("index.New: " + err.Error())
 		return
@@ -267,7 +276,7 @@ func runJob(r *ev.Run, j job, root string, sampleMu *sync.Mutex, sampled *int) {
 				r.Inconclusive(fmt.Sprintf("world %s: re-opening the %s KV: %v", j.wid, j.kv, err))
 				return
 			}
-			nl, err := hw.NewIdx(h.kv, ms, j.corpus)
+			nl, err := hw.NewIdx(h.kv, src, j.corpus)
 			if err != nil {
 				r.Violation("reload-fails/"+mode, fmt.Sprintf("world %s before position %d: re-opening the index over its own rows failed: %v", j.wid, batch[0], err), rec(batch[0], nil))
 				return
@@ -386,6 +395,19 @@ func runJob(r *ev.Run, j job, root string, sampleMu *sync.Mutex, sampled *int) {
 		r.Note("modes", mode)
 		r.Note("kv_kinds", h.kind)
 		r.Note("families", j.family)
+		if last && j.corpus && h.kind == "kv" {
+			// oversized rows inside a batch, on the KV with its own batch code, under a live corpus
+			n := 0
+			for _, c := range j.w.Claims {
+				if len(c.Value) > 600 || len(c.Attr) > 600 {
+					n++
+				}
+			}
+			if n > 0 {
+				r.Count("oversized_value_claims_under_live_corpus_on_kvfile", n)
+				r.Note("oversized_rows", "kvfile-live-corpus")
+			}
+		}
 		npend, _, _ := live.Index.VerifPending()
 		if npend > 0 {
 			r.Note("moments", "with-pending-dependencies")
@@ -440,6 +462,17 @@ func runJob(r *ev.Run, j job, root string, sampleMu *sync.Mutex, sampled *int) {
 		}
 		sampleMu.Unlock()
 	}
+}
+
+// jitterSrc is the blob source of a history with concurrent deliverers.
+type jitterSrc struct {
+	*memory.Storage
+	yield func(inject.Call)
+}
+
+func (d *jitterSrc) Fetch(ctx context.Context, br blob.Ref) (io.ReadCloser, uint32, error) {
+	d.yield(inject.Call{})
+	return d.Storage.Fetch(ctx, br)
 }
 
 func clip(s string, n int) string {
@@ -497,6 +530,7 @@ func historyMode(j *job, m int, rng *rand.Rand) {
 		for k := 0; k < 2; k++ {
 			j.twice[rng.Intn(n)] = true
 		}
+		j.jitter = 1 + rng.Int63n(1<<40)
 	case 4:
 		if n > 2 {
 			j.restartAt = 1 + rng.Intn(n-1)
@@ -507,6 +541,8 @@ func historyMode(j *job, m int, rng *rand.Rand) {
 			if j.every < 3 {
 				j.every = 3
 			}
+			j.twice = map[int]bool{rng.Intn(n): true}
+			j.jitter = 1 + rng.Int63n(1<<40)
 		}
 	}
 }
@@ -522,6 +558,21 @@ func keysFirst(w *hw.World, order []int) []int {
 		}
 	}
 	return append(keys, rest...)
+}
+
+// metaFirst returns order with every signed blob (keys, permanodes, claims, delete claims) before
+// the unsigned ones (chunks, files, directories, ...), each group in its order of appearance.
+func metaFirst(w *hw.World, order []int) []int {
+	var meta, rest []int
+	for _, bi := range order {
+		switch w.Kind[w.Blobs[bi].Ref] {
+		case "key", "permanode", "claim", "delete":
+			meta = append(meta, bi)
+		default:
+			rest = append(rest, bi)
+		}
+	}
+	return append(meta, rest...)
 }
 
 func permutations(n int) [][]int {
@@ -583,6 +634,7 @@ func run(r *ev.Run) {
 		"delete-chain-depth-3", "delete-chain-on-permanode", "delete-chain-on-claim", "long-indexed-value", "long-path-suffix",
 		"tied-claim-dates", "node-type", "media-jpg", "media-mp3", "media-png", "media-shared-wholeref")
 	r.Require("chain_orders", "exhaustive-depth3-permanode", "exhaustive-depth3-claim")
+	r.Require("oversized_rows", "kvfile-live-corpus")
 }
 
 // genericWorlds: the C05 generator, seeded orders, all history modes, all KV kinds.
@@ -779,14 +831,24 @@ func (p *planner) directedWorlds() {
 					kv = p.kv()
 				}
 				j := job{family: f.name, w: w, wid: wid, order: order, corpus: (o+i)%3 != 2, kv: kv, prefill: o%4 == 3, every: every, light: false, search: true}
-				if f.name == "content-time" && o%3 != 1 {
+				plainOnly := false
+				switch {
+				case f.name == "content-time" && o%3 == 2:
+					// metadata synced before data: every signed blob, then files, chunks, directories
+					j.order, plainOnly = metaFirst(w, order), true
+					r.Note("order_shapes", "metadata-before-data")
+				case f.name == "content-time" && o%3 == 0, f.name == "media" && o == 1:
 					j.order = keysFirst(w, order) // otherwise most histories are "everything waits for the key"
+					r.Note("order_shapes", "keys-first")
+				case f.name == "media" && o == 2:
+					j.order = metaFirst(w, order)
+					r.Note("order_shapes", "metadata-before-data")
 				}
 				if f.name == "content-time" {
 					// the window between a claim and the file it points at is one arrival wide
-					j.every, j.light, j.corpus = 1, true, o%4 != 3
+					j.every, j.light, j.corpus = 1, true, o%4 != 3 || plainOnly
 				}
-				if o >= 2 && !(f.name == "content-time" && o%2 == 0) {
+				if o >= 2 && !plainOnly {
 					historyMode(&j, 1+(o+i)%4, orng)
 				}
 				p.jobs <- j
